@@ -151,6 +151,38 @@ fn conc(path: &str, n: usize) {
                         let h = case.bytes("h");
                         (opt(rfinder.rfind(&h)), "-".to_string())
                     }
+                    "siter" if case.num("own") == 1 => {
+                        // a partially consumed iterator is converted with into_owned() and handed to ANOTHER
+                        // thread, which drains it (forward, or the reverse iterator with dir=r)
+                        let h = case.bytes("h");
+                        let k = case.num("k");
+                        let mut outs: Vec<String> = Vec::new();
+                        #[cfg(feature = "alloc")]
+                        {
+                            if case.str("dir") == "r" {
+                                let mut it = rfinder.rfind_iter(&h);
+                                for _ in 0..k / 2 {
+                                    outs.push(opt(it.next()));
+                                }
+                                let mut owned = it.into_owned();
+                                let rest: Vec<String> = std::thread::scope(|s| {
+                                    s.spawn(move || (k / 2..k).map(|_| opt(owned.next())).collect()).join().unwrap()
+                                });
+                                outs.extend(rest);
+                            } else {
+                                let mut it = finder.find_iter(&h);
+                                for _ in 0..k / 2 {
+                                    outs.push(opt(it.next()));
+                                }
+                                let mut owned = it.into_owned();
+                                let rest: Vec<String> = std::thread::scope(|s| {
+                                    s.spawn(move || (k / 2..k).map(|_| opt(owned.next())).collect()).join().unwrap()
+                                });
+                                outs.extend(rest);
+                            }
+                        }
+                        (outs.join(";"), "-".to_string())
+                    }
                     "siter" => {
                         let h = case.bytes("h");
                         let k = case.num("k");
